@@ -188,7 +188,8 @@ func (lr *lifeRun) exec(a *LifeAct) (string, string) {
 			b := lr.hs[a.H]
 			lf := &lifeFeed{term: make(chan bool), done: make(chan struct{})}
 			cb := func(e sgbucket.FeedEvent) bool {
-				if e.Opcode == sgbucket.FeedOpMutation || e.Opcode == sgbucket.FeedOpDeletion {
+				// (only the driver's own documents count: a checkpointed feed writes its checkpoint into the collection)
+				if (e.Opcode == sgbucket.FeedOpMutation || e.Opcode == sgbucket.FeedOpDeletion) && strings.HasPrefix(string(e.Key), "w") {
 					lf.mu.Lock()
 					lf.n++
 					if lf.ended {
@@ -206,6 +207,14 @@ func (lr *lifeRun) exec(a *LifeAct) (string, string) {
 					args.Backfill = 0
 				}
 				args.Dump = true
+				var ds sgbucket.DataStore
+				if ds, err = b.NamedDataStore(lifeColl(a.C)); err == nil {
+					err = ds.(*rosmar.Collection).StartDCPFeed(ctx, args, cb, nil)
+				}
+			case "ckpt":
+				// a checkpointed feed that resumes: the existing documents first, then live; it writes its checkpoint when it ends
+				args.Backfill = sgbucket.FeedResume
+				args.CheckpointPrefix = fmt.Sprintf("cp%d", lr.tr)
 				var ds sgbucket.DataStore
 				if ds, err = b.NamedDataStore(lifeColl(a.C)); err == nil {
 					err = ds.(*rosmar.Collection).StartDCPFeed(ctx, args, cb, nil)
